@@ -51,6 +51,18 @@ CHECKS = {
         note="std Read/io::copy and the basic decoders are assumed to consume what they document; parsed text content is abstracted; the "
              "token loops of the data set readers that consume sanitize_length's result are not covered.",
     ),
+    "C31": dict(
+        technique="bounded native enumeration of command set construction against the real Implicit VR LE writer (stand-in), plus a Verus proof of the even_len kernel",
+        text="Not a proof of the property: 1377 enumerated command element lists (incl. duplicate tags and stale group lengths) are built and written "
+             "by the real code and the recorded group length is compared with the bytes written. Only the even_len kernel is proved.",
+        note="command_from_iter_with_dict is outside both verifiers' reach (BTreeMap, closures, dictionary types); bounded stand-in, stated as such.",
+    ),
+    "C27": dict(
+        technique="Verus loop invariant on the extracted synchronous receive loop, transport segmentation universally quantified through the fill_buf contract",
+        text="Unbounded proof, for every segmentation of the byte stream, that each receive returns the first PDU of the logical stream and leaves exactly "
+             "the rest, hence successive receives return the PDUs in order without loss or duplication. The asynchronous twin is not verified.",
+        note="read_pdu is an abstract callee with an assumed prefix-stability axiom; BufReader is treated as transparent; async receiver uncovered.",
+    ),
     "C34": dict(
         technique="Kani/CBMC harnesses with a writer failing at a symbolic offset under the real leaf encoders; Verus ghost failure counters on the Write/Read shims of the extracted printer, decoder and P-DATA writer",
         text="Proof that the leaf encoders, every method of the stateful encoder/decoder and the P-DATA writer return an error whenever the underlying "
@@ -133,6 +145,8 @@ CHECKS = {
 }
 
 NOT_APPLICABLE = {
+    "C20": "Measured: Kani 0.68 cannot finish a 2-pixel 8-bit image in 900 s (dyn PixelDataObject, io::Cursor, Read::take, read_to_end) and the adapter text is outside Verus' subset (step_by/enumerate adapters, dyn objects). The defect S4 was found and fixed with an auxiliary native enumerator (./check C20, 288 images, not claimed).",
+    "C31": "command_from_iter_with_dict is BTreeMap + iterator closures over dictionary-typed elements: outside Verus' subset; the object crate cannot be processed by Kani within budget. Only the even_len kernel is proved (./check C31, not claimed); defect S14 was found and fixed with the auxiliary native enumerator.",
     "C02": "Byte-exact read\u2192write of whole canonical streams judged against an independent encoder: needs an inductive proof over the `DataSetReader`/`DataSetWriter` token machines (trait objects, `Vec<SeqToken>`, `BTreeMap`), beyond Verus' Rust subset and CBMC's capacity; its per-function ingredients are decided under C03/C04/C07.",
     "C06": "Relational equivalence of three readers (eager, lazy, collector) over whole files with split points \u2014 multi-component state machines over `Read + Seek`; no single-call contract expresses it.",
     "C10": "Correctness is in the `encoding` crate's character tables (a dependency) and string round trips over 16 code pages; Verus has no `str` byte reasoning, CBMC cannot load the tables.",
@@ -148,9 +162,7 @@ NOT_APPLICABLE = {
     "C33": "External binary, network, transcoding.",
     "C35": "External binaries and the `image` crate.",
     "C36": "Parsing delegates to `std::net` address parsers and `str` splitting; string reasoning unsupported in Verus, too heavy for CBMC; no arithmetic or structural kernel to put under contract.",
-    "C17": "check not built yet in this session (planned in DESIGN.md section 7); not claimed until its check runs",
-    "C22": "check not built yet in this session (planned in DESIGN.md section 7); not claimed until its check runs",
-    "C27": "check not built yet in this session (planned in DESIGN.md section 7); not claimed until its check runs",
-    "C31": "check not built yet in this session (planned in DESIGN.md section 7); not claimed until its check runs",
+    "C17": "String building/splitting (String::push_str, str::trim/split, Peekable) is outside Verus' subset and beyond the CBMC budget; no contract within reach decides it. An auxiliary native enumerator (./check C17, 16807 names, not claimed) exists.",
+    "C22": "Floating-point formulas (rescale, window level, sigmoid): Verus has no float theory and CBMC's bit-precise floats can only restate the code; the integer LUT index mapping alone does not decide the property. Not attempted.",
     "C34": "check not built yet in this session (planned in DESIGN.md section 7); not claimed until its check runs"
 }
